@@ -1,5 +1,6 @@
 import GoldModel.Model.SymTab
 import GoldModel.Model.Tree
+import GoldModel.Gen.E8_ScopeConsts
 /-!
 M-SCOPE (over M-SYM): executable model of name resolution and completion —
 `src/analyzers_v2/ast_annotator.rs` (insertion order, scope stack, eval-type propagation),
@@ -246,11 +247,13 @@ inductive EvalTy where
   | unknown | native | cls (n : String) | proc | mod (n : String) | unresolved (n : String)
 deriving DecidableEq, Repr, Inhabited
 
-/-- keys of `resolve_type_basic`'s `match id.to_uppercase()` -/
-def nativeKeys : List String :=
-  ["INT1", "INT2", "INT4", "INT8", "NUM4", "NUM8", "NUM10", "DECIMAL", "STRING", "CSTRING", "TEXT", "BOOLEAN", "CHAR"]
+/-- `resolve_type_basic`'s `match id.to_uppercase()`: the keys are extracted from the source (E8) -/
+def isNative (norm : String → String) (id : String) : Bool := ScopeGen.nativeKeys.contains (norm id)
 
-def isNative (norm : String → String) (id : String) : Bool := nativeKeys.contains (norm id)
+/-- `Debug` name of a `SymbolType` (the completion filters are extracted by these names, E8) -/
+def SK.name : SK → String
+  | .cls => "Class" | .field => "Field" | .type => "Type" | .proc => "Proc"
+  | .func => "Func" | .var => "Variable" | .const => "Constant" | .mod => "Module"
 
 /-- an expression as far as the annotator distinguishes node kinds -/
 inductive Ex where
@@ -350,8 +353,8 @@ def resolveTerminal (ec : EC) (id : String) : EvalTy :=
 /-- `resolve_method_call` (type resolver): intrinsics first -/
 def resolveCall (ec : EC) (id : String) : EvalTy :=
   let k := norm id
-  if k = "WRITELN" ∨ k = "WRITE" then .proc
-  else if k = "CONCAT" then .native
+  if ScopeGen.intrinsicProc.contains k then .proc
+  else if ScopeGen.intrinsicNative.contains k then .native
   else match searchSymW norm w ec (viewCur norm w ec.self.stem ec.st) k false with
     | some (_, x) => evalSym norm w x
     | none => .unknown
@@ -468,11 +471,11 @@ def definition (o : Occ) : List Link :=
 
 def kindOf (x : Sym) : Option SK := (findDecl w x.tag).map (·.kind)
 
-def isMember (k : SK) : Bool := k == .field || k == .func || k == .proc
+/-- what `generate_completion_items_rhs` keeps (extracted, E8): fields, functions, procedures -/
+def isMember (k : SK) : Bool := ScopeGen.rhsKept.contains k.name
 
-/-- what `generate_completion_items_lhs` keeps: everything but class members and entities -/
-def isLocalish (k : SK) : Bool :=
-  !(k == .cls || k == .mod || k == .type || k == .field || k == .proc || k == .func)
+/-- what `generate_completion_items_lhs` keeps: everything it does not drop (extracted, E8) -/
+def isLocalish (k : SK) : Bool := !ScopeGen.lhsDropped.contains k.name
 
 /-- `generate_completion_items_rhs` / `_lhs`: labels in table order -/
 def labels (keep : SK → Bool) (v : View) : List String :=
